@@ -129,13 +129,26 @@ class Records:
                 return name
         return None
 
+    def ctor_type(self, e: ast.AST) -> Optional[str]:
+        """the record class a constructor call builds (also with starred arguments, which as_tuple cannot spell out)"""
+        if isinstance(e, ast.Call):
+            name = _dotted_last(e.func)
+            if name in self.fields or name in self.dfields:
+                return name
+        return None
+
     def elem_display(self, e: ast.AST) -> Optional[str]:
         """record type of the elements of a list display / comprehension of constructor calls"""
+        if isinstance(e, ast.DictComp):
+            return self.ctor_type(e.value)
+        if isinstance(e, ast.Dict) and e.values:
+            rs = {self.ctor_type(x) for x in e.values}
+            return rs.pop() if len(rs) == 1 and None not in rs else None
         if isinstance(e, (ast.List, ast.Tuple)) and e.elts:
             rs = {self.ctor(x) for x in e.elts}
             return rs.pop() if len(rs) == 1 and None not in rs else None
         if isinstance(e, (ast.ListComp, ast.GeneratorExp)):
-            return self.ctor(e.elt)
+            return self.ctor_type(e.elt)
         return None
 
     def as_tuple(self, call: ast.Call, rec: str) -> Optional[ast.AST]:
@@ -509,12 +522,116 @@ def scalarise_dict_attributes(prog) -> None:
             ast.fix_missing_locations(fn)
 
 
+def split_local_tuple_lists(fn: ast.FunctionDef) -> bool:
+    """
+    A local list that only collects fixed-arity tuples (`L = []`, `L.append((a, b))`) and is only read by iterating over it and
+    indexing the element with literals (`f(x[1]) for x in L`) is that many parallel lists `L__0`, `L__1`: which value flows where
+    is then visible per component.
+    """
+    stores = {}
+    for n in ast.walk(fn):
+        if isinstance(n, ast.Name) and isinstance(n.ctx, ast.Store):
+            stores[n.id] = stores.get(n.id, 0) + 1
+    changed = False
+    for init in [a for a in ast.walk(fn) if isinstance(a, ast.Assign) and len(a.targets) == 1 and isinstance(a.targets[0], ast.Name)
+                 and isinstance(a.value, ast.List) and not a.value.elts and stores.get(a.targets[0].id) == 1]:
+        L = init.targets[0].id
+        parents: Dict[int, ast.AST] = {}
+        for p in ast.walk(fn):
+            for c in ast.iter_child_nodes(p):
+                parents[id(c)] = p
+        uses = [n for n in ast.walk(fn) if isinstance(n, ast.Name) and n.id == L and isinstance(n.ctx, ast.Load)]
+        appends, iters = [], []
+        ok = True
+        for u in uses:
+            p = parents.get(id(u))
+            pp = parents.get(id(p)) if p is not None else None
+            if isinstance(p, ast.Attribute) and p.attr == "append" and isinstance(pp, ast.Call) and pp.func is p and len(pp.args) == 1 \
+                    and isinstance(pp.args[0], ast.Tuple) and not any(isinstance(x, ast.Starred) for x in pp.args[0].elts) \
+                    and isinstance(parents.get(id(pp)), ast.Expr):
+                appends.append(pp)
+            elif isinstance(p, (ast.For, ast.comprehension)) and p.iter is u and isinstance(p.target, ast.Name):
+                iters.append(p)
+            else:
+                ok = False
+        arities = {len(a.args[0].elts) for a in appends}
+        if not ok or not appends or not iters or len(arities) != 1:
+            continue
+        k = arities.pop()
+        # every use of an iteration variable is x[literal]
+        plan = []
+        for it in iters:
+            x = it.target.id
+            scope = parents.get(id(it)) if isinstance(it, ast.comprehension) else it
+            xs = [n for n in ast.walk(scope) if isinstance(n, ast.Name) and n.id == x and isinstance(n.ctx, ast.Load)]
+            idx = set()
+            for n in xs:
+                p = parents.get(id(n))
+                if isinstance(p, ast.Subscript) and p.value is n and isinstance(p.slice, ast.Constant) and isinstance(p.slice.value, int) \
+                        and 0 <= p.slice.value < k and isinstance(p.ctx, ast.Load):
+                    idx.add(p.slice.value)
+                else:
+                    ok = False
+            if len(idx) != 1:
+                ok = False
+            plan.append((it, scope, x, idx))
+        if not ok:
+            continue
+        # rewrite
+        block_of_init = None
+        for p in ast.walk(fn):
+            for fld in ("body", "orelse", "finalbody"):
+                b = getattr(p, fld, None)
+                if isinstance(b, list) and any(st is init for st in b):
+                    block_of_init = b
+        if block_of_init is None:
+            continue
+        pos = [i for i, st in enumerate(block_of_init) if st is init][0]
+        block_of_init[pos:pos + 1] = [ast.copy_location(ast.Assign(targets=[ast.Name(id=f"{L}__{i}", ctx=ast.Store())], value=ast.List(elts=[], ctx=ast.Load())), init)
+                                      for i in range(k)]
+        for a in appends:
+            e = parents[id(a)]          # the Expr statement
+            for p in ast.walk(fn):
+                for fld in ("body", "orelse", "finalbody"):
+                    b = getattr(p, fld, None)
+                    if isinstance(b, list) and any(st is e for st in b):
+                        j = [i for i, st in enumerate(b) if st is e][0]
+                        b[j:j + 1] = [ast.copy_location(ast.Expr(value=ast.Call(func=ast.Attribute(value=ast.Name(id=f"{L}__{i}", ctx=ast.Load()), attr="append",
+                                                                                                ctx=ast.Load()), args=[v], keywords=[])), e)
+                                      for i, v in enumerate(a.args[0].elts)]
+        for it, scope, x, idx in plan:
+            i = next(iter(idx))
+            it.iter = ast.copy_location(ast.Name(id=f"{L}__{i}", ctx=ast.Load()), it.iter)
+
+            class _Idx(ast.NodeTransformer):
+                def visit_Subscript(self, node: ast.Subscript):
+                    self.generic_visit(node)
+                    if isinstance(node.value, ast.Name) and node.value.id == x and isinstance(node.slice, ast.Constant):
+                        return ast.copy_location(ast.Name(id=x, ctx=ast.Load()), node)
+                    return node
+            if isinstance(it, ast.comprehension):
+                comp = scope
+                for fld in ("elt", "key", "value"):
+                    if hasattr(comp, fld):
+                        setattr(comp, fld, _Idx().visit(getattr(comp, fld)))
+                for g in comp.generators:
+                    g.ifs = [_Idx().visit(c) for c in g.ifs]
+            else:
+                it.body = [_Idx().visit(st) for st in it.body]
+        ast.fix_missing_locations(fn)
+        changed = True
+    return changed
+
+
 def normalise_records(prog) -> None:
     recs = Records(prog)
     if recs.fields or recs.enums or recs.dfields:
         for mi, ci, fn in prog.functions():
             if recs.rewrite_function(fn):
                 ast.fix_missing_locations(fn)
+                for _ in range(3):
+                    if not split_local_tuple_lists(fn):
+                        break
         # module-level code is left alone (constants only)
     # only attributes that held a record object: a plain tuple attribute of the pinned code is what the rules already read
     scalarise_tuple_attributes(prog, {a for a, r in recs.attr_is.items() if r})
